@@ -35,13 +35,13 @@ def find(d, fn, seed):
     outs = d.run(lines, timeout=600)
     for (s, fl), line, o in zip(cases, lines, outs):
         f = o.split('\t')
-        if len(f) < 4 or f[0] != 'OK':
+        if len(f) < 2 or f[0] != 'OK':
             continue
         res = [x for x in f[1].split(';') if x.startswith('entries=')]
         if not res:
             continue
         got = res[0][len('entries=OK('):-1] if res[0].startswith('entries=OK(') else res[0]
-        tree = O.parse_tree(f[3].split('|'))
+        tree = O.tree_from_script(s.split(';'))
         if '/r' not in tree:
             continue
         exp = '|'.join(O.walk_ref(tree, '/r', **opts_of(fl)))
